@@ -56,7 +56,8 @@ class Family:
         self.kit = LexerKit(("oq3_lexer", "oq3_parser"))
         self.seed = seed
         self.L = lexeme_spec()
-        self.classes = self.L.lexeme_classes()
+        self.classes = dict(self.L.lexeme_classes())
+        self.classes.update(self.L.line_classes())
         self.f_lexed_new = self.kit.prog.methods.get(("LexedStr", None, "new"))
         self.ex = Exec(self.kit.prog, self.kit.models, max_steps=2000000)
         self._cons = {}
@@ -131,6 +132,8 @@ class PairHarness:
         return len(toks)
 
     def spans(self, cname, chars, kinds, off):
+        if len(kinds) == 0:
+            return []           # a comment: trivia, not in the token table compared
         if len(kinds) == 1:
             return [(kinds[0], off, off + len(chars))]
         # number + unit: the unit is the trailing identifier part
@@ -220,6 +223,13 @@ def run(ctx):
                     seps = [s for s in seps if s in ("", " ", "/**/", "\n", "\r\n")]
                 for sep in seps:
                     tasks.append(("pair", a, ia, b, ib_, sep))
+    # lexemes that run to the end of the line: the line break (LF, CRLF, CR) is not part of them, the next line starts a new lexeme
+    lines = L.line_classes()
+    for a in lines:
+        for ia in range(len(lines[a][1])):
+            for b in ("identifier", "int_decimal", "punct_SEMICOLON"):
+                for sep in ("\n", "\r\n", "\r"):
+                    tasks.append(("pair", a, ia, b, 0, sep))
     for w in L.KEYWORDS:
         if w != "OPENQASM":
             tasks.append(("kwn", w, "after")); tasks.append(("kwn", w, "before"))
@@ -297,7 +307,7 @@ def confirm_concrete(kit, task, text):
     K = kit.K
     trivia = (K["WHITESPACE"], K["COMMENT"])
     toks = [(k, t) for k, t in zip(o["kinds"], o["texts"]) if k not in trivia]
-    classes = L.lexeme_classes()
+    classes = dict(L.lexeme_classes()); classes.update(L.line_classes())
     if task[0] == "kwn":
         w, side = task[1], task[2]
         x = text[-1] if side == "after" else text[0]
@@ -313,6 +323,8 @@ def confirm_concrete(kit, task, text):
 
     def parts(cname, shape, s):
         kinds = classes[cname][0]
+        if len(kinds) == 0:
+            return []
         if len(kinds) == 1:
             return [(K[kinds[0]], s)]
         u = re.match(r"(int|float)_(.+)$", cname).group(2)
